@@ -17,8 +17,10 @@ RECURSIVE KeySeqs(_)
 KeySeqs(n) == IF n = 0 THEN { <<>> } ELSE KeySeqs(n - 1) \cup { Append(s, k) : s \in { t \in KeySeqs(n - 1) : Len(t) = n - 1 }, k \in KeyAlphabet }
 Pad == <<"n", "n", "n", "n", "n">>
 
-VARIABLES docs, keys0
-vars == <<st, docs, keys0>>
+\* mid: the second file's document arrives BETWEEN the two documents of the first file (walker threads send the documents
+\* of different files interleaved)
+VARIABLES docs, keys0, mid
+vars == <<st, docs, keys0, mid>>
 
 Disjoint(ds) == \A a, b \in 1..Len(ds) : a # b =>
                     \A i \in 1..Len(ds[a]), j \in 1..Len(ds[b]) : ~Intersects(ds[a][i], ds[b][j])
@@ -26,14 +28,17 @@ Orig == [p \in {"f", "g"} |-> Original]
 
 Init == /\ docs \in { <<d>> : d \in DiffSeqs } \cup { ds \in { <<d, e>> : d \in DiffSeqs, e \in Small } : Disjoint(ds) }
         /\ keys0 \in KeySeqs(MaxKeys)
-        /\ st = InitState(Orig,
-                          [k \in 1..Len(docs) |-> [path |-> "f", old |-> Original, diffs |-> docs[k]]]
-                            \o (IF TwoFiles THEN << [path |-> "g", old |-> Original, diffs |-> << [pos |-> 1, del |-> 2, ins |-> <<0 - 99>>] >>] >> ELSE <<>>),
+        /\ mid \in IF TwoFiles /\ Len(docs) = 2 THEN BOOLEAN ELSE {FALSE}
+        /\ LET fdocs == [k \in 1..Len(docs) |-> [path |-> "f", old |-> Original, diffs |-> docs[k]]]
+               gdoc == [path |-> "g", old |-> Original, diffs |-> << [pos |-> 1, del |-> 2, ins |-> <<0 - 99>>] >>] IN
+           st = InitState(Orig,
+                          IF ~TwoFiles THEN fdocs ELSE IF mid THEN <<fdocs[1], gdoc, fdocs[2]>> ELSE fdocs \o <<gdoc>>,
                           keys0 \o Pad, FALSE)
-MCNext == Next /\ UNCHANGED <<docs, keys0>>
+MCNext == Next /\ UNCHANGED <<docs, keys0, mid>>
 Spec == Init /\ [][MCNext]_vars /\ WF_vars(MCNext)
-SpecAlone == Init /\ [][NextAlone /\ UNCHANGED <<docs, keys0>>]_vars
-SpecClosed == Init /\ [][NextClosed /\ UNCHANGED <<docs, keys0>>]_vars
+SpecAlone == Init /\ [][NextAlone /\ UNCHANGED <<docs, keys0, mid>>]_vars
+SpecClosed == Init /\ [][NextClosed /\ UNCHANGED <<docs, keys0, mid>>]_vars
+SpecLastOnly == Init /\ [][NextLastOnly /\ UNCHANGED <<docs, keys0, mid>>]_vars
 
 P1 == FilesP(st, Orig)
 P2 == DisjointP(st)
